@@ -99,6 +99,12 @@ def fnCall (m : Model) : P (List String) := do
   | "canPut" => do
     let q ← pNat; let c ← pNat; let s ← getSt m
     pure (Wire.put (decide (availSpace m s.live q ≥ (m.comp c).size)))
+  | "isReady" => do
+    let c ← pNat; let s ← getSt m
+    pure (Wire.put (isReady m s.live c))
+  | "availSpace" => do
+    let q ← pNat; let s ← getSt m
+    pure (Wire.put (availSpace m s.live q))
   | "contrib" => do
     let t ← pNat; let s ← getSt m
     pure (Wire.put (contrib m s.live t))
